@@ -16,6 +16,9 @@ R10.4  may-be-NULL contradiction: values flowing from locations that the code it
 R10.6  array reads of the module-level writers stay in bounds: the header/implementation writers are partially evaluated on a
        concrete 6-function module for every -f N and several static/dynamic splits with exact-length arrays; any read past the
        end of a module or function-ID array is reported with its location
+R10.7  allocation bounds: for every array obtained from calloc/malloc in the translator, each subscript and each bulk copy into
+       it is provably inside the allocated element count (index is a loop variable bounded by an expression <= the count, or a
+       linear expression strictly below the count), and the element size passed to the allocator is the size of the pointee
 R10.5  name bytes: the hex escape of identifier bytes formats an unsigned byte with at most two digits in both twins
 """
 import math
@@ -755,6 +758,180 @@ class NullFlow:
         return '%r, reached from %s' % (loc, ' / '.join('%s.%s' % (s[1], s[2]) for s in NULLABLE_SEEDS))
 
 
+# ---- R10.7 ----------------------------------------------------------------------------------------
+
+def lin_ast(n, tu):
+    """linear form {atom text: coefficient, 1: constant} of an integer expression"""
+    n = strip(n, casts=True)
+    v = astdb.const_int(n, tu)
+    if v is not None:
+        return {1: v}
+    k = n.get('kind')
+    if k == 'UnaryExprOrTypeTraitExpr' and n.get('name') == 'sizeof':
+        t = len_text(n, tu)
+        if re.fullmatch(r'\d+', t):
+            return {1: int(t)}
+    if k == 'BinaryOperator' and n.get('opcode') in ('+', '-'):
+        a, b = lin_ast(kids(n)[0], tu), lin_ast(kids(n)[1], tu)
+        out = dict(a)
+        for key, c in b.items():
+            out[key] = out.get(key, 0) + (c if n['opcode'] == '+' else -c)
+        return {key: c for key, c in out.items() if c != 0 or key == 1}
+    if k == 'BinaryOperator' and n.get('opcode') == '*':
+        a, b = lin_ast(kids(n)[0], tu), lin_ast(kids(n)[1], tu)
+        for x, y in ((a, b), (b, a)):
+            if set(x) <= {1}:
+                c = x.get(1, 0)
+                return {key: c * v_ for key, v_ in y.items()}
+    return {astdb.expr_text(n): 1}
+
+
+def lin_diff_const(a, b):
+    """a - b if it is a constant, else None"""
+    keys = set(a) | set(b)
+    d = {key: a.get(key, 0) - b.get(key, 0) for key in keys}
+    if any(v for key, v in d.items() if key != 1):
+        return None
+    return d.get(1, 0)
+
+
+def check_allocation_bounds(chk, funcs):
+    n_sites = 0
+    for tu, f in funcs:
+        body = astdb.fn_body(f)
+        fname = f['name']
+        allocs = {}     # var name -> (count node, size node, alloc node)
+        for n in walk(body):
+            tgt, call = None, None
+            if n.get('kind') == 'VarDecl' and n.get('init'):
+                ini = strip([c for c in kids(n) if c.get('kind')][-1], casts=True)
+                if ini.get('kind') == 'CallExpr':
+                    tgt, call = n.get('name'), ini
+                    ptype = tu.desugar(astdb.qtype(n))
+            elif n.get('kind') == 'BinaryOperator' and n.get('opcode') == '=':
+                l = strip(kids(n)[0])
+                r = strip(kids(n)[1], casts=True)
+                if l.get('kind') == 'DeclRefExpr' and r.get('kind') == 'CallExpr':
+                    tgt, call = l['referencedDecl'].get('name'), r
+                    ptype = tu.desugar(astdb.qtype(l))
+            if call is None:
+                continue
+            cn = astdb.callee_name(call)
+            args = astdb.call_args(call)
+            if cn == 'calloc' and len(args) == 2:
+                allocs[tgt] = (args[0], args[1], call, ptype)
+            elif cn == 'malloc' and len(args) == 1:
+                allocs[tgt] = (args[0], None, call, ptype)
+        if not allocs:
+            continue
+        chk.fn(fname)
+        par = None
+        for pname, (cnt, size, call, ptype) in sorted(allocs.items()):
+            site = '%s:alloc:%s' % (fname, pname)
+            A = lin_ast(cnt, tu)
+            pointee = ptype.rstrip().rstrip('*').replace('const ', '').strip() if ptype.rstrip().endswith('*') else None
+            esize = None
+            if pointee:
+                ti = ct.tinfo(pointee)
+                if ti[0] in ('int', 'float'):
+                    esize = ti[1] // 8
+            if size is not None and pointee not in (None, 'void'):
+                s0 = strip(size, casts=True)
+                if s0.get('kind') == 'UnaryExprOrTypeTraitExpr' and s0.get('name') == 'sizeof' and s0.get('argType'):
+                    at = tu.desugar((s0['argType'].get('desugaredQualType') or s0['argType'].get('qualType'))).replace('const ', '').strip()
+                    n_sites += 1
+                    chk.expect(at == pointee or (at.replace('struct ', '') == pointee.replace('struct ', '')), 'R10.7', site + ':element-size',
+                               '%s allocates %s elements of sizeof(%s) for a pointer to %s at %s: the element size does not match the array type'
+                               % (fname, astdb.expr_text(cnt), at, pointee, astdb.loc_str(call)), site, astdb.loc_str(call))
+                elif astdb.const_int(s0, tu) is not None and esize is not None:
+                    n_sites += 1
+                    chk.expect(astdb.const_int(s0, tu) == esize, 'R10.7', site + ':element-size',
+                               '%s allocates elements of %d bytes for %s at %s' % (fname, astdb.const_int(s0, tu), ptype, astdb.loc_str(call)), site, astdb.loc_str(call))
+            if size is None:
+                # malloc(bytes): only byte arrays are bounded here
+                if esize != 1:
+                    continue
+            # uses
+            for u in walk(body):
+                k = u.get('kind')
+                if k == 'ArraySubscriptExpr':
+                    b = strip(kids(u)[0], casts=True)
+                    if b.get('kind') != 'DeclRefExpr' or b['referencedDecl'].get('name') != pname:
+                        continue
+                    idx = kids(u)[1]
+                    n_sites += 1
+                    I = lin_ast(idx, tu)
+                    d = lin_diff_const(A, I)
+                    ok = d is not None and d >= 1
+                    why = ''
+                    if not ok:
+                        # index = loop variable + constant offset
+                        off = I.get(1, 0)
+                        vars_ = [key for key, c in I.items() if key != 1 and c]
+                        if len(vars_) == 1 and I[vars_[0]] == 1 and re.fullmatch(r'\w+', vars_[0]):
+                            iname = vars_[0]
+                            for loop in walk(body):
+                                if loop.get('kind') not in ('ForStmt', 'WhileStmt') or not any(x is u for x in walk(loop)):
+                                    continue
+                                cond = loop['inner'][2] if loop['kind'] == 'ForStmt' else loop['inner'][-2]
+                                for cc in _conjuncts(cond):
+                                    if cc.get('kind') == 'BinaryOperator' and cc.get('opcode') in ('<', '!=') and \
+                                            astdb.expr_text(strip(kids(cc)[0], casts=True)) == iname:
+                                        d2 = lin_diff_const(A, lin_ast(kids(cc)[1], tu))
+                                        low_ok = off >= 0 or _loop_start(loop, iname, tu) is not None and _loop_start(loop, iname, tu) + off >= 0
+                                        if d2 is not None and d2 - off >= 0 and cc['opcode'] == '<' and low_ok:
+                                            ok = True
+                                        else:
+                                            why = ' (loop bound %s vs allocated count %s)' % (astdb.expr_text(kids(cc)[1]), astdb.expr_text(cnt))
+                    chk.expect(ok, 'R10.7', '%s:%s[%s]' % (site, pname, astdb.expr_text(strip(idx, casts=True))),
+                               '%s indexes %s[%s] at %s but %s was allocated with %s elements: the index is not provably below the count%s'
+                               % (fname, pname, astdb.expr_text(strip(idx, casts=True)), astdb.loc_str(u), pname, astdb.expr_text(cnt), why),
+                               site + ':index', astdb.loc_str(u))
+                elif k == 'CallExpr' and astdb.callee_name(u) in ('memcpy', 'strncpy', 'memset', 'memmove', 'strcpy'):
+                    a = astdb.call_args(u)
+                    d0 = strip(a[0], casts=True)
+                    if d0.get('kind') != 'DeclRefExpr' or d0['referencedDecl'].get('name') != pname:
+                        continue
+                    n_sites += 1
+                    cn = astdb.callee_name(u)
+                    if cn == 'strcpy':
+                        src = astdb.expr_text(strip(a[1], casts=True))
+                        want = {'strlen(%s)' % src: 1, 1: 1}
+                        d = lin_diff_const(A, want)
+                        ok = d is not None and d >= 0
+                        ntext = 'strlen(%s) + 1' % src
+                    else:
+                        N = lin_ast(a[2], tu)
+                        tot = A if (size is None or esize == 1) else {key: c * (esize or 1) for key, c in A.items()}
+                        d = lin_diff_const(tot, N)
+                        ok = d is not None and d >= 0
+                        ntext = astdb.expr_text(strip(a[2], casts=True))
+                    chk.expect(ok, 'R10.7', '%s:%s(%s)' % (site, cn, ntext),
+                               '%s copies %s bytes into %s at %s, which was allocated with %s element(s): not provably within the allocation'
+                               % (fname, ntext, pname, astdb.loc_str(u), astdb.expr_text(cnt)), site + ':copy', astdb.loc_str(u))
+    return n_sites
+
+
+def _conjuncts(cond):
+    c = strip(cond, casts=True)
+    if c.get('kind') == 'BinaryOperator' and c.get('opcode') == '&&':
+        return _conjuncts(kids(c)[0]) + _conjuncts(kids(c)[1])
+    return [c]
+
+
+def _loop_start(loop, iname, tu):
+    """constant the loop variable is set to in the for-init, or None"""
+    if loop.get('kind') != 'ForStmt':
+        return None
+    init = loop['inner'][0]
+    for n in walk(init) if init.get('kind') else ():
+        if n.get('kind') == 'BinaryOperator' and n.get('opcode') == '=' and astdb.expr_text(strip(kids(n)[0])) == iname:
+            return astdb.const_int(strip(kids(n)[1], casts=True), tu)
+        if n.get('kind') == 'VarDecl' and n.get('name') == iname and n.get('init'):
+            return astdb.const_int(strip([c for c in kids(n) if c.get('kind')][-1], casts=True), tu)
+    return None
+
+
 # ---- R10.6 ----------------------------------------------------------------------------------------
 
 def check_writer_bounds(chk):
@@ -803,6 +980,7 @@ def run(chk):
     nf.propagate()
     n_null = nf.check()
     n_wr = check_writer_bounds(chk)
+    n_al = check_allocation_bounds(chk, funcs)
     chk.extra['sites'] = dict(sprintf=n_fmt, copies=n_cp, raw_buffer=n_buf, nullable_sinks=n_null,
                               tainted_locations=sorted(map(str, nf.tainted)), seed_evidence={str(k): v[:3] for k, v in just.items()})
     chk.floor('R10.1', 10)
@@ -811,3 +989,4 @@ def run(chk):
     chk.floor('R10.4', 6)
     chk.floor('R10.5', 2)
     chk.floor('R10.6', 30)
+    chk.floor('R10.7', 30)
